@@ -421,3 +421,75 @@ pub fn normalise_record_patterns(e: &Expr) -> Expr {
     }
     e2
 }
+
+/// AST-level mutation (G-mut on the harness AST): most results are ill-typed; the ones the real
+/// checker still accepts are the interesting population for the soundness check.
+pub fn mutate_ast(e: &Expr, rng: &mut crate::rng::Rng) -> (Expr, &'static str) {
+    let n = count(e);
+    let i = rng.below(n);
+    let node = get(e, i).clone();
+    let mut vars: Vec<String> = Vec::new();
+    super::gen::walk(e, &mut |x| {
+        if let Expr::Var(v) = x {
+            if !vars.contains(v) {
+                vars.push(v.clone());
+            }
+        }
+    });
+    match rng.below(8) {
+        0 | 1 => {
+            let j = rng.below(n);
+            (replace(e, i, &get(e, j).clone()), "replace-by-other-subterm")
+        }
+        2 => {
+            let lits = [super::ast::int(3), Expr::Lit(Lit::Str("m".into())), Expr::Lit(Lit::Float(2.5)), Expr::Unit, super::ast::var("True"), Expr::Lit(Lit::Char('c')), Expr::Array(vec![])];
+            (replace(e, i, rng.pick(&lits)), "replace-by-literal")
+        }
+        3 if !vars.is_empty() => (replace(e, i, &Expr::Var(rng.pick(&vars).clone())), "replace-by-variable"),
+        4 => {
+            let cs: Vec<Expr> = children(&node).into_iter().cloned().collect();
+            if cs.len() >= 2 {
+                let mut cs2 = cs.clone();
+                let a = rng.below(cs.len());
+                let b_ = rng.below(cs.len());
+                cs2.swap(a, b_);
+                (replace(e, i, &with_children(&node, cs2)), "swap-children")
+            } else {
+                (e.clone(), "none")
+            }
+        }
+        5 => match &node {
+            Expr::BinOp(_, l, r) => {
+                let ops = ["#Int+", "#Int==", "#Float*", "#Int<", "&&", "#Byte+", "#Char=="];
+                (replace(e, i, &Expr::BinOp(rng.pick(&ops).to_string(), l.clone(), r.clone())), "change-operator")
+            }
+            Expr::Proj(b_, _) => (replace(e, i, &Expr::Proj(b_.clone(), rng.pick(&["a", "b", "x", "_0", "_1", "go"]).to_string())), "change-field"),
+            _ => (e.clone(), "none"),
+        },
+        6 => match &node {
+            Expr::Match(s, alts) if alts.len() >= 2 => {
+                let mut a = alts.clone();
+                let x = rng.below(a.len());
+                let y = rng.below(a.len());
+                let px = a[x].0.clone();
+                a[x].0 = a[y].0.clone();
+                a[y].0 = px;
+                (replace(e, i, &Expr::Match(s.clone(), a)), "swap-patterns")
+            }
+            Expr::App(f, args) if !args.is_empty() => {
+                let mut a = args.clone();
+                a.pop();
+                (replace(e, i, &super::ast::app((**f).clone(), a)), "drop-argument")
+            }
+            _ => (e.clone(), "none"),
+        },
+        _ => {
+            // wrap in an application / projection
+            match rng.below(3) {
+                0 => (replace(e, i, &Expr::App(b(node.clone()), vec![super::ast::int(1)])), "apply-to-argument"),
+                1 => (replace(e, i, &Expr::Proj(b(node.clone()), "a".into())), "project-field"),
+                _ => (replace(e, i, &Expr::Tuple(vec![node.clone(), super::ast::int(0)])), "wrap-in-tuple"),
+            }
+        }
+    }
+}
